@@ -616,6 +616,9 @@ var errStreamBroken = status.Error(codes.Unknown, "stream-broken")
 func (f *fakeWS) Context() context.Context { return f.ctx }
 
 func (f *fakeWS) Send(req *proto.WriteRequest) error {
+	// SendMsg takes time before the message is on the wire: without this point a wrapper that
+	// called Send outside its lock could never be overtaken (mutant m6 escaped)
+	f.w.s.Yield()
 	if f.onSend != nil {
 		f.onSend(req)
 	}
@@ -752,6 +755,7 @@ type cInput struct {
 	cmp     proto.KeyComparisonType
 	index   bool
 	part    bool // PartitionKey given: single shard
+	cancel  bool // extra (outside the property's quantifier): the caller's context is cancelled at a freely chosen scheduling point
 	scripts []shardScript
 }
 
@@ -787,6 +791,9 @@ func (in cInput) String() string {
 	}
 	if in.part {
 		o += "-partition"
+	}
+	if in.cancel {
+		o += "-ctxcancel"
 	}
 	return o + " " + strings.Join(parts, " ")
 }
@@ -848,12 +855,16 @@ func (e *execC) ExecuteRead(_ context.Context, req *proto.ReadRequest) (proto.Ox
 
 type listStream struct {
 	grpc.ClientStream
+	ctx  context.Context
 	msgs []*proto.ListResponse
 	i    int
 	end  error
 }
 
 func (r *listStream) Recv() (*proto.ListResponse, error) {
+	if r.ctx != nil && r.ctx.Err() != nil {
+		return nil, status.FromContextError(r.ctx.Err()).Err()
+	}
 	if r.i < len(r.msgs) {
 		r.i++
 		return r.msgs[r.i-1], nil
@@ -899,13 +910,16 @@ func chunks(keys []string, errAt int) [][]string {
 	return out
 }
 
-func (e *execC) ExecuteList(_ context.Context, req *proto.ListRequest) (proto.OxiaClient_ListClient, error) {
+func (e *execC) ExecuteList(ctx context.Context, req *proto.ListRequest) (proto.OxiaClient_ListClient, error) {
 	e.w.s.Yield()
 	sc := e.in.scripts[*req.Shard]
 	if sc.errAt == errExec {
 		return nil, shardErr(*req.Shard)
 	}
 	st := &listStream{}
+	if e.in.cancel {
+		st.ctx = ctx
+	}
 	for _, c := range chunks(sc.keys, sc.errAt) {
 		st.msgs = append(st.msgs, &proto.ListResponse{Keys: c})
 	}
@@ -976,6 +990,18 @@ func bodyC(v cVariant) func(s *vsched.Sched) {
 			target = int64(len(in.scripts) - 1)
 		}
 		partKey := string([]byte{'k', byte(target)})
+		listCtx := context.Background()
+		if in.cancel {
+			var cancel context.CancelFunc
+			listCtx, cancel = context.WithCancel(listCtx)
+			at := s.Steps() + 1 + s.Choose(30, true)
+			onPoint = func(s *vsched.Sched) {
+				if s.Steps() == at {
+					cancel()
+				}
+			}
+			s.OnEnd(func(vsched.Outcome) { onPoint = nil; cancel() })
+		}
 		done := false
 		var items []oxia.GetResult
 		var lists []oxia.ListResult
@@ -1037,7 +1063,7 @@ func bodyC(v cVariant) func(s *vsched.Sched) {
 				if in.part {
 					opts = append(opts, oxia.PartitionKey(partKey))
 				}
-				ch := client.List(context.Background(), "", "zzz", opts...)
+				ch := client.List(listCtx, "", "zzz", opts...)
 				for {
 					x, ok := vsched.Recv2(ch)
 					if !ok {
@@ -1104,6 +1130,9 @@ func bodyC(v cVariant) func(s *vsched.Sched) {
 				s.Fail(in.op+"-pending:"+class, fmt.Sprintf("%s: the result channel never delivered anything; blocked: %s", desc, strings.Join(s.Blocked(), "; ")))
 			}
 			return
+		}
+		if in.cancel {
+			return // only: the channel is closed exactly once and nothing panics
 		}
 		// what the healthy shards hold, and everything scripted
 		var all []string
@@ -1491,12 +1520,18 @@ func indexGetInputs() []cInput {
 
 // ---------------------------------------------------------------------------------
 
+var onPoint func(s *vsched.Sched)
+
 func scenarios(tier string) []sched.Scenario {
 	t := 0
 	if tier == "thorough" {
 		t = 1
 	}
-	base := vsched.Config{MaxSteps: 20000}
+	base := vsched.Config{MaxSteps: 20000, OnPoint: func(s *vsched.Sched) {
+		if onPoint != nil {
+			onPoint(s)
+		}
+	}}
 	race := base
 	race.TimersRace = true
 	race.RaceWindow = int64(20 * time.Millisecond) // linger timers race with arrivals; retry back-offs (>=100 ms) and the harness sleep do not
@@ -1536,6 +1571,17 @@ func scenarios(tier string) []sched.Scenario {
 		{"c-get-index-2shards", indexGetInputs(), [2]int{2, 4}},
 		{"c-get-2shards", getInputs(2), [2]int{2, 4}},
 		{"c-get-3shards", getInputs(3), [2]int{2, 3}},
+	}
+	if os.Getenv("VERIF_C20_EXTRA") != "" {
+		// Outside the property's quantifier (it speaks of error placement, not of the caller cancelling
+		// its context), kept out of the tiers; see NOTES.md "Observations".
+		var ins []cInput
+		for _, in := range streamInputs("list", 2, false, false)[:3] {
+			in.cancel = true
+			ins = append(ins, in)
+		}
+		cs = []cVariant{{"x-list-ctx-cancel-2shards", ins, [2]int{1, 2}}}
+		as, bs = nil, nil
 	}
 	// cheap scenarios first: the explorer splits the remaining budget evenly over the scenarios
 	// still to run, so whatever the small ones leave unused goes to the big ones at the end
